@@ -57,7 +57,7 @@ func (r c17Row) SetOptions() []any { return nil }
 // c17F is a filter tree. Leaves: "a" (lookup index equality on A), "b" (sorted index
 // equality on B), "keys", "pa" (predicate A in Strs), "pc" (predicate C%2 == N).
 type c17F struct {
-	K    string  `json:"k"`
+	K    string   `json:"k"`
 	Strs []string `json:"strs,omitempty"`
 	Ints []int64  `json:"ints,omitempty"`
 	Keys []int32  `json:"keys,omitempty"`
@@ -66,7 +66,7 @@ type c17F struct {
 }
 
 type c17Op struct {
-	K       string   `json:"k"` // begin commit abort create update delete query ordered get reopen
+	K       string   `json:"k"`            // begin commit abort create update delete query ordered get reopen
 	Tx      int      `json:"tx,omitempty"` // 0 = directly on the DB, 1..3 = transaction slot
 	Rows    []c17Row `json:"rows,omitempty"`
 	Foreign bool     `json:"foreign,omitempty"`
@@ -78,6 +78,7 @@ type c17Op struct {
 	Desc    bool     `json:"desc,omitempty"`
 	Cursor  *int64   `json:"cursor,omitempty"`
 	Limit   int      `json:"limit,omitempty"`
+	Offset  int      `json:"offset,omitempty"` // query mode "page"
 }
 
 type c17Case struct {
@@ -190,7 +191,15 @@ func genC17Query(t *rapid.T, tx int) c17Op {
 		return c17Op{K: "get", Tx: tx, Field: "b", Int: int64(rapid.IntRange(0, 4).Draw(t, "gi"))}
 	default:
 		f := genC17F(t, 0)
-		return c17Op{K: "query", Tx: tx, F: &f, Mode: rapid.SampledFrom([]string{"exec", "exec", "count", "exists"}).Draw(t, "mode")}
+		op := c17Op{K: "query", Tx: tx, F: &f, Mode: rapid.SampledFrom([]string{"exec", "exec", "count", "exists", "page"}).Draw(t, "mode")}
+		if op.Mode == "page" {
+			op.Limit = rapid.IntRange(0, 3).Draw(t, "qlimit")
+			op.Offset = rapid.IntRange(0, 2).Draw(t, "qoffset")
+			if op.Limit == 0 && op.Offset == 0 {
+				op.Limit = 1
+			}
+		}
+		return op
 	}
 }
 
@@ -618,6 +627,42 @@ func runC17SeqBody(c c17Case, st *drv.Stats) *drv.Failure {
 					if ok != (len(want) > 0) {
 						return drv.Failf("query-mismatch", variant+":exists:"+c17Where(op.Tx, len(txs)), "%s: the %s query says exists=%v, the model holds %d matching rows", what, variant, ok, len(want))
 					}
+				case "page":
+					// an unordered page: WHICH matching rows it holds is not specified,
+					// how many is: the rows that pass the filter are counted, so a page
+					// holds min(limit, matching-offset) distinct matching rows
+					if op.Limit > 0 {
+						q = q.Limit(op.Limit)
+					}
+					if op.Offset > 0 {
+						q = q.Offset(op.Offset)
+					}
+					var got []c17Row
+					if err := q.Entries(&got).Exec(w.ctx, tx); err != nil && !errors.Is(err, query.ErrNotFound) {
+						return drv.Failf("unexpected-error", "page", "%s: %v", what, err)
+					}
+					wantN := len(want) - op.Offset
+					if wantN < 0 {
+						wantN = 0
+					}
+					if op.Limit > 0 && wantN > op.Limit {
+						wantN = op.Limit
+					}
+					inWant := map[int32]c17Row{}
+					for _, r := range want {
+						inWant[r.ID] = r
+					}
+					seen := map[int32]bool{}
+					for _, r := range got {
+						if wr, ok := inWant[r.ID]; !ok || wr != r || seen[r.ID] {
+							return drv.Failf("query-mismatch", variant+":page-row:"+c17Where(op.Tx, len(txs)), "%s: the %s query with limit %d offset %d returned %s, which is not a set of rows matching the filter (%s)", what, variant, op.Limit, op.Offset, fmtRows(got), fmtRows(want))
+						}
+						seen[r.ID] = true
+					}
+					if len(got) != wantN {
+						return drv.Failf("query-mismatch", variant+":page-size:"+c17Where(op.Tx, len(txs)), "%s: the %s query with limit %d offset %d returned %d rows %s; %d rows match the filter (%s), so the page holds %d", what, variant, op.Limit, op.Offset, len(got), fmtRows(got), len(want), fmtRows(want), wantN)
+					}
+					st.Probe("query_page")
 				default:
 					var got []c17Row
 					if err := q.Entries(&got).Exec(w.ctx, tx); err != nil {
